@@ -177,6 +177,27 @@ def run(ctx):
         ctx.count("traffic_logs")
         if snap.bytes != b"".join(segs):
             ctx.fail("snapshot:traffic_log", "traffic log does not reassemble to the transferred block", {"segments": [list(s) for s in segs], "parsed": list(snap.bytes)})
+    # ---- quoting corner cases of the logged bytes repr: every arrangement of quote / double quote / backslash / letter (length 1..3)
+    # in a short segment whose header holds none of them (the 39-byte segments carry 0x27 in their length byte)
+    import itertools
+    for n in (1, 2, 3):
+        for combo in itertools.product([0x27, 0x22, 0x5C, 0x41], repeat=n):
+            for wrap in ((b"AA", b"A"), (b"", b"")):
+                seg = wrap[0] + bytes(combo) + wrap[1]
+                d = b"STATV" + struct.pack(">BBB", 0, 0, len(seg)) + seg
+                full = b"<PACKT><SRCCN>A</SRCCN><DESCN>B</DESCN><DATAS>" + d + b"</DATAS></PACKT>"
+                line = "2020-12-12 09:36:48,000 geckolib.driver.udp_socket DEBUG " + ("Received %s from %s" % (full, ("10.0.0.1", 10022)))
+                snap = GeckoSnapshot()
+                got = None
+                try:
+                    snap.parse(line)
+                    got = snap.bytes
+                except Exception as e:  # noqa
+                    got = ("raises", type(e).__name__)
+                ctx.case(("quoting", seg))
+                ctx.count("quoting_corner_segments")
+                if got != seg:
+                    ctx.fail("snapshot:traffic_log", "a logged STATV segment %r does not parse back to its bytes (got %r)" % (seg, got), {"segment": list(seg), "line": line, "parsed": str(got)})
     # ---- shipped snapshots: load into the real simulator and serve to a real client
     from props.C01 import real_chain, run_async
     shipped = gen_misc.shipped_snapshots()
